@@ -46,6 +46,10 @@ def variant(base: rm.Svc, change: str) -> rm.Svc:
         s.host_ttl, s.other_ttl = 30, 200
     elif change == "server":
         s.server = "moved.local."
+    elif change == "subtype":
+        s.type = "_q._sub." + base.type.split("._sub.")[-1]  # the instance keeps its name and moves to (another) subtype
+    elif change == "basetype":
+        s.type = base.type.split("._sub.")[-1]
     return s
 
 
@@ -53,7 +57,8 @@ def events_for(tier: str) -> List[tuple]:
     names = list(TEMPLATES)
     ev: List[tuple] = [("reg", n) for n in names] + [("unreg", n) for n in names] + [("ask",)]
     ev += [("upd", "S1", "port", "same"), ("upd", "S1", "text", "new"), ("upd", "S1", "addr", "same"),
-           ("upd", "S1", "ttl", "same"), ("upd", "S3", "noaddr6", "same"), ("upd", "S2", "server", "new")]
+           ("upd", "S1", "ttl", "same"), ("upd", "S3", "noaddr6", "same"), ("upd", "S2", "server", "new"),
+           ("upd", "S1", "subtype", "new"), ("upd", "S4", "basetype", "new")]
     if tier != "quick":
         ev += [("upd", "S3", "ttl", "new"), ("upd", "S5", "port", "new"), ("upd", "S1", "server", "new"),
                ("upd", "S2", "addr", "new")]
@@ -191,7 +196,8 @@ def query_names(model: Dict[str, rm.Svc]) -> List[str]:
             for v in (n, recase(n)):
                 if v not in names:
                     names.append(v)
-    names += [rm.ENUM, rm.ENUM.upper(), "nobody._a._tcp.local.", "_zz._tcp.local.", "ghost.local.", "moved.local."]
+    names += [rm.ENUM, rm.ENUM.upper(), "nobody._a._tcp.local.", "_zz._tcp.local.", "ghost.local.", "moved.local.",
+              "_q._sub._a._tcp.local."]
     return names
 
 
